@@ -204,8 +204,8 @@ type GunPlan struct {
 	BindErrAt    int   `json:"bind_err_at"`    // Bind call index that fails (-1 none)
 	WarmUp       bool  `json:"warmup"`         // guns implement warmup.WarmedUp
 	WarmUpErr    bool  `json:"warmup_err"`
-	Closer       bool  `json:"closer"`        // guns implement io.Closer
-	Reports      int   `json:"reports"`       // samples reported per shot
+	Closer       bool  `json:"closer"`  // guns implement io.Closer
+	Reports      int   `json:"reports"` // samples reported per shot
 	FaultUs      int   `json:"fault_delay_us"`
 }
 
